@@ -305,6 +305,69 @@ def r7_method_arms(ctx):
            'the custom-methods arm (bb%d) is reachable after the well-known-methods arm (bb%d) without starting the next handler: %s' % (cu_start, wk_end, ok))
 
 
+def r8_allow_list_reaches_the_fallback(ctx):
+    ctx.rule('C07.R8', 'P3 who-may-construct (expected count 0, positive control: AllowedMethods::Some): the runtime never builds '
+             '`AllowedMethods::All` — the generated router hands the list of registered methods to the fallback through '
+             '`MethodAllowList -> AllowedMethods`, and the default fallback answers 405 + `Allow` only when it receives that list (C07.R5); '
+             'a conversion that collapses a "complete" list into All turns a method mismatch into a 404.')
+    AM = 'pavex::router::allowed_methods::AllowedMethods'
+    n_all, n_some = [], 0
+    for b in ctx.fb.bodies('pavex'):
+        if b.is_promoted or b.raw.get('exp'):
+            continue
+        for bb, j, st in b.all_assigns():
+            rv = st['rv']
+            if rv['k'] == 'agg' and rv.get('ak') == 'adt' and strip_generics(rv['adt']) == AM:
+                if rv['var'] == 'All':
+                    n_all.append(b.loc(bb, st))
+                elif rv['var'] == 'Some':
+                    n_some += 1
+    ctx.floor('C07.R8', 'constructions of AllowedMethods::Some in pavex (positive control)', n_some, 1)
+    ctx.ob('C07.R8', 'all-is-never-constructed', not n_all, n_all[0] if n_all else '', 'AllowedMethods::All is constructed %d time(s) in the runtime' % len(n_all))
+
+
+def r9_innermost_fallback_on_method_mismatch(ctx):
+    ctx.rule('C07.R9', 'P7/P1: in PathRouter::assign_fallbacks the fallback recorded for a handler (used when the path matches and the method does '
+             'not) is the scope-based one — the fallback of the innermost blueprint around the route: every value inserted into the '
+             'handler -> fallback map derives from ScopeBasedFallbackTree::find_fallback_id, or, if it is the path-based candidate, the '
+             'insertion is unreachable from the "they differ" outcome of the comparison between the two.')
+    b = ctx.need('C07.R9', 'PathRouter::assign_fallbacks', ctx.fb.body('pavexc', UR + 'PathRouter::assign_fallbacks'))
+    if b is None:
+        return
+    defs = Defs(b)
+    FIND = UR + 'ScopeBasedFallbackTree::find_fallback_id'
+    ins = [(bb, t) for bb, t in b.calls() if (callee(t) or '').endswith('BTreeMap::insert') and len(t['aty']) == 3
+           and t['aty'][1] == t['aty'][2] and 'Idx<' in t['aty'][1]]
+    if not ctx.need('C07.R9', 'insertions into the handler -> fallback map', ins):
+        return
+    cmps = []
+    for bb, t in b.calls():
+        if callee(t) in ('core::cmp::PartialEq::ne', 'core::cmp::PartialEq::eq') and 'Idx<' in t['aty'][0]:
+            srcs = []
+            for a in t['args']:
+                pl = op_place(a)
+                sl, _ = backward_slice(b, pl['l'], defs) if pl else ([], set())
+                srcs.append({c for c, _, _ in slice_calls(sl)})
+            if any(FIND in x for x in srcs) and any(FIND not in x for x in srcs):
+                der = forward_derived(b, {t['dest']['l']})
+                for sb in b.live_blocks():
+                    w = b.term(sb)
+                    if w and w['k'] == 'switch' and 'enum' not in w and op_place(w['d']) is not None and op_place(w['d'])['l'] in der:
+                        zero = [tg for v, tg in w['ts'] if v == '0']
+                        if zero:
+                            differ = w['else'] if callee(t).endswith('ne') else zero[0]
+                            cmps.append((sb, differ))
+    for k, (bb, t) in enumerate(sorted(ins, key=lambda x: x[0])):
+        pl = op_place(t['args'][2])
+        sl, _ = backward_slice(b, pl['l'], defs) if pl else ([], set())
+        scope_based = FIND in {c for c, _, _ in slice_calls(sl)}
+        ok = scope_based or (bool(cmps) and all(bb not in b.reachable(differ, avoid=[sb]) for sb, differ in cmps))
+        ctx.ob('C07.R9', 'fallback-of-handler|insert#%d' % (k + 1), ok, b.loc(bb, t),
+               'the fallback recorded for the handler %s' % ('is the scope-based one' if scope_based else
+                                                             ('is the path-based candidate, recorded only when it equals the scope-based one' if ok else
+                                                              'is the PATH-based candidate and can be recorded although the scope-based one differs')))
+
+
 def check(ctx):
     r1_detectors_gate(ctx)
     r2_nesting(ctx)
@@ -313,3 +376,5 @@ def check(ctx):
     r5_default_fallback(ctx)
     r6_fallbacks_of_this_router(ctx)
     r7_method_arms(ctx)
+    r8_allow_list_reaches_the_fallback(ctx)
+    r9_innermost_fallback_on_method_mismatch(ctx)
